@@ -101,6 +101,8 @@ def rule_a(ctx):
 
 def rule_b(ctx):
     P = ctx.prog
+    from . import inventory
+    inventory.check(ctx, ["seq-future-build"])
     fns = c01.stepping_fns(P)
     if not fns:
         return ctx.missing("stepping function")
@@ -200,6 +202,8 @@ def rule_b(ctx):
 
 def rule_c(ctx):
     P = ctx.prog
+    from . import inventory
+    inventory.check(ctx, ["file:seq_futures"])
     b = ctx.body("<util::seq_futures::SeqFuture as std::future::Future>::poll")
     if not b:
         return
